@@ -257,3 +257,67 @@ func c10SearchBoth(c *Ctx) {
 		c.Check(bad == token.NoPos, rule, fname(f), "the "+pool+" pool is searched before every return", "", "buildChains can return without having looked for parents in opts."+pool+": chains through that pool are never found, so a certificate with a valid chain there (for instance one that satisfies the requested key usage) is rejected", bad)
 	}
 }
+
+// c10CriticalFlag: parseCertificate records an extension as an unhandled critical one when `e.Critical && unhandled`.
+// The flag must describe THIS extension: it may not be carried over from earlier iterations of the extension loop (a
+// flag declared outside the loop and never reset turns every later critical extension into an "unhandled" one, and
+// Verify then rejects a certificate it should accept).
+func c10CriticalFlag(c *Ctx) {
+	rule := "G-C10-verify"
+	f := c.Fn("x509", "parseCertificate")
+	if f == nil {
+		c.Missing(rule, "x509.parseCertificate", "function", "not found")
+		return
+	}
+	isCriticalLoad := func(v ssa.Value) bool {
+		switch x := v.(type) {
+		case *ssa.UnOp:
+			if fa, ok := x.X.(*ssa.FieldAddr); ok && x.Op == token.MUL {
+				return fieldName(fa.X.Type(), fa.Field) == "Critical"
+			}
+		case *ssa.Field:
+			return fieldName(x.X.Type(), x.Field) == "Critical"
+		}
+		return false
+	}
+	headers := loopHeaders(f)
+	n := 0
+	for _, ifi := range ifsOf(f) {
+		if !isCriticalLoad(ifi.Cond) {
+			continue
+		}
+		t := ifi.Block().Succs[0]
+		ifi2, ok := lastIf(t)
+		if !ok {
+			continue
+		}
+		n++
+		// the phi closure of the second test
+		carried := false
+		seen := map[ssa.Value]bool{}
+		var walk func(v ssa.Value)
+		walk = func(v ssa.Value) {
+			if seen[v] {
+				return
+			}
+			seen[v] = true
+			ph, ok := v.(*ssa.Phi)
+			if !ok {
+				return
+			}
+			for _, h := range headers {
+				if ph.Block() == h && loopBlocks(h)[t] {
+					carried = true
+				}
+			}
+			for _, e := range ph.Edges {
+				walk(e)
+			}
+		}
+		walk(ifi2.Cond)
+		c.Check(!carried, rule, fname(f), "the unhandled flag of a critical extension is not carried over from earlier extensions", "", "the flag tested together with e.Critical is a loop-carried value of the extension loop: once an unknown extension has been seen, every later critical extension — even a handled one such as keyUsage — is recorded in UnhandledCriticalExtensions and Verify rejects the certificate", ifi2.Cond.Pos())
+	}
+	if n == 0 {
+		c.Undecided(rule, fname(f), "critical-extension bookkeeping", "no `e.Critical && flag` test found in parseCertificate", f.Pos())
+	}
+}
